@@ -114,7 +114,7 @@ def cases(tier, seed):
         for bad in ("cnumber", "operator", "missing-hc"):
             out.append(dict(cls="symbolic-nonhermitian-scalar", order=order, bad=bad, total=3))
     # (k) threshold probes
-    for rel in ("1e-7", "1e-3", "0"):
+    for rel in ("1e-7", "1e-3", "0", "1e-14"):
         for rep in ("dense", "csr"):
             for big in (1.0, 1000.0):
                 out.append(dict(cls="threshold", rel=rel, repr=rep, big=big, total=3))
@@ -777,7 +777,9 @@ def run_threshold(case):
     if case["repr"] == "csr":
         h0, h1 = sparse.csr_array(h0), sparse.csr_array(h1)
     V = []
-    must_reject = rel < 1e-5
+    # "share a level" = equal within the tolerance `atol` (default 1e-12) that also decides which energy
+    # denominators vanish; levels that are merely close are a well-posed (if badly convergent) problem
+    must_reject = big * rel <= 1e-12
     try:
         with warnings.catch_warnings():
             warnings.simplefilter("ignore")
@@ -785,12 +787,12 @@ def run_threshold(case):
             vals = [outs[w][i, j, n] for n in (1, 2, 3) for w in range(3) for i in range(2) for j in range(2)]
     except REJECTIONS:
         if not must_reject:
-            V.append(f"levels at relative distance {rel} (above the 1e-5 threshold) were rejected")
+            V.append(f"levels at distance {big * rel} (above atol = 1e-12) were rejected")
         return V, True, "rejected"
     except Exception as e:  # noqa: BLE001
         return [f"raises {type(e).__name__}: {str(e)[:100]}"], True, "bad"
     if must_reject:
-        V.append(f"blocks share a level within relative distance {rel} but all elements were answered")
+        V.append(f"blocks share a level within atol (distance {big * rel}) but all elements were answered")
     for v in vals:
         d = lattice.block_to_np(v, np.shape(v) if hasattr(v, "shape") else (1, 1)) if v is not None else None
         if d is not None and d.dtype != object and not np.isfinite(np.asarray(d, dtype=complex)).all():
